@@ -18,7 +18,7 @@ directory whose root.bolt has exactly one record naming the copied files.
 Theorems: the written directory satisfies the durable invariant and Open loads exactly the captured
 snapshot (`copy_opens`); while the copy is in progress no legal step of persister, merger or purger
 removes a file it needs, whatever else happens (`copy_protected`); the source state is a function
-argument, so it is unchanged by construction.  That the captured snapshot covers everything
+argument, so it is unchanged by construction (`source_unaffected`, `copy_release_restores`).  That the captured snapshot covers everything
 acknowledged before the copy began is the C04 monitor's `covers_acked`.
 Tie (`./check C14`): copies are taken while writers, forced merges and the purger run; each copy is
 opened and judged by `History.check` in Lean with the acknowledgements sampled before CopyTo was
@@ -78,6 +78,22 @@ theorem copy_protected (evs : List Ev) (s s' : F) (h : Nat) (fs : List Name) (hi
   have := held_persist evs _ s' h fs hm hne hrun
   intro f hf
   exact hi'.2 (h, fs) this f hf
+
+/-- **The source index is unaffected**: scheduling a copy and ending it change nothing of what is on
+    the source's disk — its root.bolt records, its files and its acknowledged epoch are those it
+    had, so whatever `recover` answered for the source it still answers. -/
+theorem source_unaffected (s : F) (h : Nat) (fs : List Name) :
+    (step s (.hold h fs)).d = s.d ∧ (step s (.release h)).d = s.d ∧
+    recover (step (step s (.hold h fs)) (.release h)).d = recover s.d := ⟨rfl, rfl, rfl⟩
+
+/-- a copy that has ended leaves no trace in the source's bookkeeping when its handle was fresh:
+    the held set is what it was, so the purger regains exactly the freedom it had -/
+theorem copy_release_restores (s : F) (h : Nat) (fs : List Name) (hfresh : ∀ p ∈ s.held, p.1 ≠ h) :
+    (step (step s (.hold h fs)) (.release h)).held = s.held := by
+  simp only [step, List.filter_cons, bne_self_eq_false, Bool.false_eq_true, if_false]
+  apply List.filter_eq_self.2
+  intro p hp
+  simpa [bne_iff_ne] using hfresh p hp
 
 /-! ## non-vacuity -/
 
